@@ -444,6 +444,35 @@ package slice
 //@   at exit: ghost wa = LCSFunc_wa
 //@   at exit: ghost wb = LCSFunc_wb
 //@
+// govcTabMono and govcLCSBound are lemma functions: ordinary Go, compiled only under the build tag, whose loops are
+// the inductions. For ANY table that satisfies tabOK — the very predicate LCSFunc proves for its ghost table —
+// govcTabMono derives that the table is monotone over arbitrary distances, and govcLCSBound that every common
+// subsequence (positions wx into xs and wy into ys, both strictly ascending, elements pairwise equivalent) is at most
+// tab[len(ys)][len(xs)] long: the k-th matched pair lies at a cell worth at least k. With LCSFunc's postcondition
+// `optimal` (its result is a common subsequence of exactly that length) no common subsequence is longer than the
+// result.
+//@ pred tabShape(tab [][]int, xs []T, ys []T) := len(tab) == len(ys) + 1 && forall j int :: {tab[j]} 0 <= j && j < len(tab) ==> len(tab[j]) == len(xs) + 1
+//@
+//@ func govcTabMono
+//@   role eq eqv
+//@   requires [C12] shape: tabShape(tab, xs, ys) && 0 <= j1 && j1 <= j2 && j2 <= len(ys) && 0 <= x1 && x1 <= x2 && x2 <= len(xs)
+//@   requires [C12] table: tabOK(tab, xs, ys, eq)
+//@   ensures  [C12] mono: tab[j1][x1] <= tab[j2][x2]
+//@   loop 1: invariant [C12] down: j1 <= j && j <= j2 && tab[j1][x1] <= tab[j][x1]
+//@   loop 1: decreases j2 - j
+//@   loop 2: invariant [C12] right: x1 <= x && x <= x2 && tab[j1][x1] <= tab[j2][x]
+//@   loop 2: decreases x2 - x
+//@
+//@ func govcLCSBound
+//@   role eq eqv
+//@   requires [C12] shape: tabShape(tab, xs, ys)
+//@   requires [C12] table: tabOK(tab, xs, ys, eq)
+//@   requires [C12] common: len(wx) == len(wy) && forall k int :: {wx[k]} {wy[k]} 0 <= k && k < len(wx) ==> 0 <= wx[k] && wx[k] < len(xs) && 0 <= wy[k] && wy[k] < len(ys) && eqv(eq, xs[wx[k]], ys[wy[k]])
+//@   requires [C12] ascending: forall a int, b int :: {wx[a], wx[b]} {wy[a], wy[b]} 0 <= a && b == a + 1 && b < len(wx) ==> wx[a] < wx[b] && wy[a] < wy[b]
+//@   ensures  [C12] bound: len(wx) <= tab[len(ys)][len(xs)]
+//@   loop 1: invariant [C12] step: 0 <= k && k <= len(wx) && (k > 0 ==> tab[wy[k - 1] + 1][wx[k - 1] + 1] >= k)
+//@   loop 1: decreases len(wx) - k
+//@
 // govcChainBound is a lemma function: for ANY assignment cl of lengths to positions that grows along every
 // admissible step (position j before x with vs[j] not above vs[x] has cl[j] < cl[x]) and is at least 1, any chain s
 // (ascending positions, values not descending) is at most as long as cl at its last position. The loop is the
@@ -460,5 +489,23 @@ package slice
 
 func govcChainBound[T any](vs []T, cmp func(a, b T) int, cl []int, s []int, strict bool) {
 	for k := 1; k < len(s); k++ {
+	}
+}
+
+func govcTabMono[T any](xs, ys []T, eq func(a, b T) bool, tab [][]int, j1, x1, j2, x2 int) {
+	for j := j1; j < j2; j++ {
+	}
+	for x := x1; x < x2; x++ {
+	}
+}
+
+func govcLCSBound[T any](xs, ys []T, eq func(a, b T) bool, tab [][]int, wx, wy []int) {
+	for k := 0; k < len(wx); k++ {
+		if k > 0 {
+			govcTabMono(xs, ys, eq, tab, wy[k-1]+1, wx[k-1]+1, wy[k], wx[k])
+		}
+	}
+	if len(wx) > 0 {
+		govcTabMono(xs, ys, eq, tab, wy[len(wx)-1]+1, wx[len(wx)-1]+1, len(ys), len(xs))
 	}
 }
